@@ -34,6 +34,8 @@ B3  == "4008000000000000"   B7  == "401c000000000000"
 ValuesAll ==
   { Num("n", "1.5", B15, -1), Num("", "42", B42, -1), Num("n", "1E+5", B1E5, -1), Num("", "-0", BN0, -1),
     Num("n", "1.5", B15, 1), Num("", "42", B42, 2), Num("n", "1.5", B15, 3), Num("", "42", B42, 0),
+    Num("n", "1.5", B15, 4), Num("", "42", B42, 5), Num("n", "1.5", B15, 6), Num("", "42", B42, 7), Num("n", "1.5", B15, 8),
+    Num("", "42", B42, 9), Num("n", "1.5", B15, 10), V("", FALSE, "", "", -1, FALSE, NoIs, 4),
     V("", FALSE, "", "", -1, FALSE, NoIs, 1), V("", FALSE, "", "", -1, FALSE, NoIs, -1), V("s", FALSE, "", "", -1, FALSE, NoIs, -1),
     Txt("str", "text res"), Txt("str", "123"), Txt("str", "a&b<c>"), Txt("str", "TRUE"), Txt("str", ""),
     Txt("str", "  pad "), Txt("str", "a_x000D_b"),
@@ -70,7 +72,14 @@ SstPool == { Plain("plain"), Plain("a&b<c>"), Plain("  padded  "), Rich(<<"run1 
              [rich |-> FALSE, runs |-> <<>>] }          \* the empty item, written <si/>
 
 Xfs == << [id |-> 0, custom |-> FALSE, code |-> ""], [id |-> 14, custom |-> FALSE, code |-> ""],
-          [id |-> 164, custom |-> TRUE, code |-> "0.0\" <u>\""], [id |-> 2, custom |-> FALSE, code |-> ""] >>
+          [id |-> 164, custom |-> TRUE, code |-> "0.0\" <u>\""], [id |-> 2, custom |-> FALSE, code |-> ""],
+          (* formats the file DECLARES under ids below 164 (localised Excel / WPS): the declared code is the cell's code *)
+          [id |-> 42, custom |-> TRUE, code |-> "_ \"Y\"* #,##0_ ;_ \"Y\"* \\-#,##0_ ;_ \"Y\"* \"-\"_ ;_ @_ "],
+          [id |-> 44, custom |-> TRUE, code |-> "\"Y\"#,##0.00"], [id |-> 15, custom |-> TRUE, code |-> "yyyy/mm/dd"],
+          [id |-> 23, custom |-> TRUE, code |-> "0.0"],
+          (* undeclared ids outside the ECMA list: nothing is demanded *)
+          [id |-> 60, custom |-> FALSE, code |-> ""], [id |-> 43, custom |-> FALSE, code |-> ""],
+          [id |-> 165, custom |-> TRUE, code |-> "0.000"] >>
 
 OptDefault == [spans |-> FALSE, dim |-> FALSE, tn |-> TRUE, ent |-> "named", spall |-> FALSE, rowr |-> TRUE,
                applynf |-> "1", dense |-> FALSE, indent |-> FALSE, nosp |-> FALSE]
@@ -203,6 +212,11 @@ Model(f) ==
 (* every generated hyperlink has a target by the rule of Decode.tla, and is a place in the workbook iff it has no r:id *)
 LinksOk == \A i \in DOMAIN Links(file) : LET h == Links(file)[i] IN
               ValidLink(h) /\ LinkUrl(h) # "" /\ (LinkIsPlace(h) <=> (h.hasloc /\ ~h.ext)) /\ (LinkPlaceDecided(h) \/ h.ext)
+(* number formats: a declared id wins whatever the id, an undeclared ECMA id is that built-in, anything else is open *)
+FmtLemmas == /\ FmtDemand(Xfs[5]) = "code" /\ Xfs[5].id = 42 /\ FmtDemand(Xfs[6]) = "code" /\ FmtDemand(Xfs[7]) = "code" /\ Xfs[7].id = 15
+             /\ FmtDemand(Xfs[2]) = "id" /\ FmtDemand(Xfs[1]) = "id" /\ FmtDemand(Xfs[9]) = "none" /\ FmtDemand(Xfs[10]) = "none"
+             /\ \A i \in DOMAIN Xfs : FmtDemand(Xfs[i]) = "code" <=> Xfs[i].custom
+
 (* ---- ST_Xstring: the decoding operator on the cases the palette exercises ------------- *)
 Lower == <<"a", "b", "c", "d", "e", "f", "g", "h", "i", "j", "k", "l", "m", "n", "o", "p", "q", "r", "s", "t", "u", "v", "w", "x", "y", "z">>
 Digs  == <<"0", "1", "2", "3", "4", "5", "6", "7", "8", "9">>
